@@ -73,6 +73,9 @@ type RenderOpts struct {
 	// MinParens renders AND/OR/NOT with only the parentheses that standard
 	// precedence requires (NOT > AND > OR); otherwise fully parenthesised.
 	MinParens bool
+	// ColText overrides the rendering of specific column names (used for
+	// pseudo-columns such as aggregate calls in HAVING).
+	ColText map[string]string
 }
 
 func (o RenderOpts) feat(f string) {
@@ -82,6 +85,9 @@ func (o RenderOpts) feat(f string) {
 }
 
 func (o RenderOpts) Col(name string) string {
+	if t, ok := o.ColText[name]; ok {
+		return t
+	}
 	if o.Qualifier != "" {
 		return o.Qualifier + "." + Ident(name, o.Quote)
 	}
